@@ -203,6 +203,85 @@ static string run_sacn(const vector<string> &a, bool wire) {
   return res.str();
 }
 
+// payload: sacnm <ignore_preview> <step>,...   one inflator, several universes, API calls in mid-history
+//   step: r:univ:fresh | x:univ | dt:vec:cid:prio:seq:univ:flags:dmph:pduhex ; universes 1..3 are observed
+static int g_ucb[4];
+static void on_univ_cb(int u) { g_ucb[u]++; }
+
+static string run_sacnm(const vector<string> &a) {
+  using namespace ola::acn;  // NOLINT
+  bool ignore_preview = vh::num(a[1]) != 0;
+  g_now_us = T0;
+  DMPE131Inflator inflator(ignore_preview);
+  vector<ola::DmxBuffer*> bufs;         // every buffer ever registered stays alive
+  vector<uint8_t*> prios;
+  ola::DmxBuffer *cur_buf[4] = {NULL, NULL, NULL, NULL};
+  uint8_t *cur_prio[4] = {NULL, NULL, NULL, NULL};
+  std::ostringstream res;
+  vector<string> steps = vh::split(a[2], ',');
+  for (size_t i = 0; i < steps.size(); i++) {
+    vector<string> f = vh::split(steps[i], ':');
+    if (i) res << ";";
+    for (int u = 0; u < 4; u++) g_ucb[u] = 0;
+    if (f[0] == "r") {
+      unsigned u = vh::num(f[1]);
+      bool fresh = vh::num(f[2]) != 0;
+      if (u >= 1 && u <= 3) {
+        if (!cur_buf[u] || fresh) {
+          bufs.push_back(new ola::DmxBuffer()); prios.push_back(new uint8_t(0));
+          cur_buf[u] = bufs.back(); cur_prio[u] = prios.back();
+        }
+        inflator.SetHandler(u, cur_buf[u], cur_prio[u], ola::NewCallback(&on_univ_cb, static_cast<int>(u)));
+      }
+    } else if (f[0] == "x") {
+      unsigned u = vh::num(f[1]);
+      if (u >= 1 && u <= 3) { inflator.RemoveHandler(u); cur_buf[u] = NULL; cur_prio[u] = NULL; }
+    } else {
+      g_now_us += vh::num(f[0]);
+      uint32_t cidn = vh::num(f[2]);
+      uint8_t cid_bytes[16];
+      memset(cid_bytes, 0, sizeof(cid_bytes));
+      cid_bytes[0] = 0xc8;
+      cid_bytes[12] = cidn >> 24; cid_bytes[13] = cidn >> 16; cid_bytes[14] = cidn >> 8; cid_bytes[15] = cidn;
+      HeaderSet headers;
+      RootHeader root;
+      root.SetCid(CID::FromData(cid_bytes));
+      headers.SetRootHeader(root);
+      unsigned flags = vh::num(f[6]);
+      headers.SetE131Header(E131Header("src", vh::num(f[3]), vh::num(f[4]), vh::num(f[5]),
+                                       flags & 1, flags & 2, flags & 4));
+      headers.SetDMPHeader(DMPHeader(static_cast<uint8_t>(vh::num(f[7]))));
+      vh::Exact pdu(vh::unhex(f[8]));
+      inflator.HandlePDUData(vh::num(f[1]), headers, pdu.p, pdu.n);
+    }
+    res << "o" << i << "=";
+    for (int u = 1; u <= 3; u++) {
+      if (u > 1) res << "/";
+      if (!cur_buf[u]) { res << "-"; continue; }
+      res << g_ucb[u] << "|" << static_cast<int>(*cur_prio[u]) << "|" << buf_hex(*cur_buf[u]);
+    }
+    res << ";t" << i << "=";
+    for (int u = 1; u <= 3; u++) {
+      if (u > 1) res << "/";
+      DMPE131Inflator::UniverseHandlers::iterator it = inflator.m_handlers.find(u);
+      if (it == inflator.m_handlers.end()) { res << "-"; continue; }
+      DMPE131Inflator::universe_handler &hd = it->second;
+      res << static_cast<int>(hd.active_priority) << "|";
+      for (size_t k = 0; k < hd.sources.size(); k++) {
+        uint8_t cb[16];
+        hd.sources[k].cid.Pack(cb);
+        uint32_t c = (cb[12] << 24) | (cb[13] << 16) | (cb[14] << 8) | cb[15];
+        if (k) res << "+";
+        res << c << "." << static_cast<int>(hd.sources[k].sequence) << "."
+            << ts_us(hd.sources[k].last_heard_from) << "." << buf_hex(hd.sources[k].buffer);
+      }
+    }
+  }
+  for (size_t k = 0; k < bufs.size(); k++) { delete bufs[k]; delete prios[k]; }
+  res << ";txt=1";
+  return res.str();
+}
+
 // ------------------------------------------------------------------ Art-Net
 // payload: art <ltp> <step>,...     step: dt:addr:net:univ:lenfield:datahex
 static const uint8_t PORT_ID = 1;
@@ -278,6 +357,19 @@ static string run_art(const vector<string> &a) {
   return res.str();
 }
 
+// a mock socket whose sends can be made to fail (the node's own transmissions)
+class FailableSocket: public ola::testing::MockUDPSocket {
+ public:
+  FailableSocket(): fail(false) {}
+  bool fail;
+  ssize_t SendTo(const uint8_t *buffer, unsigned int size, const ola::network::IPV4Address &ip,
+                 unsigned short port) const {
+    if (fail) return -1;
+    return ola::testing::MockUDPSocket::SendTo(buffer, size, ip, port);
+  }
+  using ola::testing::MockUDPSocket::SendTo;
+};
+
 // payload: artn <step>,...   all four output ports, configuration changes in mid-history
 //   step: dt:addr:net:univ:lenfield:datahex | e:port:univ | d:port | m:port:ltp | s:subnet | n:net
 static int g_pcb[4];
@@ -295,7 +387,7 @@ static string run_artn(const vector<string> &a) {
   ib.SetBroadcast("10.255.255.255");
   ib.SetHardwareAddress(ola::network::MACAddress::FromStringOrDie("0a:0b:0c:12:34:56"));
   ola::network::Interface iface = ib.Construct();
-  ola::testing::MockUDPSocket *sock = new ola::testing::MockUDPSocket();
+  FailableSocket *sock = new FailableSocket();
   sock->SetDiscardMode(true);
   ArtNetNodeOptions opts;
   std::ostringstream res;
@@ -310,11 +402,12 @@ static string run_artn(const vector<string> &a) {
     for (size_t i = 0; i < steps.size(); i++) {
       vector<string> f = vh::split(steps[i], ':');
       if (i) res << ";";
-      if (f[0] == "e" || f[0] == "d" || f[0] == "m" || f[0] == "s" || f[0] == "n") {
+      if (f[0] == "e" || f[0] == "d" || f[0] == "m" || f[0] == "s" || f[0] == "n" || f[0] == "f") {
         if (f[0] == "e") node.SetOutputPortUniverse(vh::num(f[1]), vh::num(f[2]));
         else if (f[0] == "d") node.DisableOutputPort(vh::num(f[1]));
         else if (f[0] == "m") node.SetMergeMode(vh::num(f[1]), vh::num(f[2]) ? ARTNET_MERGE_LTP : ARTNET_MERGE_HTP);
         else if (f[0] == "s") node.SetSubnetAddress(vh::num(f[1]));
+        else if (f[0] == "f") sock->fail = vh::num(f[1]) != 0;
         else node.SetNetAddress(vh::num(f[1]));
         res << "o" << i << "=c|" << static_cast<int>(node.NetAddress()) << "|";
         for (int p = 0; p < 4; p++) {
@@ -369,6 +462,7 @@ static string handle(const string &p) {
   if (a[0] == "sacnw") return run_sacn(a, true);
   if (a[0] == "art") return run_art(a);
   if (a[0] == "artn") return run_artn(a);
+  if (a[0] == "sacnm") return run_sacnm(a);
   if (a[0] == "consts") {
     std::ostringstream o;
     o << "expiry_us=" << ola::acn::DMPE131Inflator::EXPIRY_INTERVAL.AsInt();
